@@ -12,6 +12,7 @@ import (
 	"time"
 
 	"github.com/TarsCloud/TarsGo/tars"
+	"github.com/TarsCloud/TarsGo/tars/protocol/res/requestf"
 	"github.com/TarsCloud/TarsGo/tars/util/rogger"
 	"github.com/TarsCloud/TarsGo/tars/util/vhook"
 	"verifharness/gen/Srv"
@@ -123,6 +124,93 @@ func (imp) Note(ctx context.Context, k int32) error {
 	return nil
 }
 
+// the same implementation registered without context (AddServant): Protocol.Invoke and the generated dispatcher take
+// their withContext = false branches
+type impPlain struct{}
+
+func (impPlain) Ok(k int32, y *int32) (int32, error) { return imp{}.Ok(context.Background(), k, y) }
+func (impPlain) Fail(k int32, code int32, msg string) (int32, error) {
+	return imp{}.Fail(context.Background(), k, code, msg)
+}
+func (impPlain) Slow(k int32, cls int32, y *int32) (int32, error) {
+	return imp{}.Slow(context.Background(), k, cls, y)
+}
+func (impPlain) Note(k int32) error { return imp{}.Note(context.Background(), k) }
+
+// ---------------------------------------------------------------- server filters (process-wide registrations)
+//
+// Every filter is an observer that passes the call on unchanged, the way a metrics / tracing plug-in does: the legacy
+// filter and the middlewares call the next stage and return its error, pre and post filters return nil.  With such
+// filters registered the server owes exactly the same replies as without them.  What the filters saw is recorded per
+// request id (an observation for the evidence; the statement does not say which requests a filter sees).
+
+var filterKinds = map[string]bool{"none": true, "legacy": true, "prepost": true, "mw": true, "all": true}
+
+type filterLog struct {
+	mu     sync.Mutex
+	stages map[int32]int // request id -> filter stages entered
+	byKind map[string]int64
+}
+
+var flog = &filterLog{stages: map[int32]int{}, byKind: map[string]int64{}}
+
+func (l *filterLog) note(kind string, req *requestf.RequestPacket) {
+	l.mu.Lock()
+	l.stages[req.IRequestId]++
+	l.byKind[kind]++
+	l.mu.Unlock()
+}
+func (l *filterLog) seen(id int32) int {
+	l.mu.Lock()
+	defer l.mu.Unlock()
+	return l.stages[id]
+}
+func (l *filterLog) kinds() map[string]int64 {
+	l.mu.Lock()
+	defer l.mu.Unlock()
+	o := map[string]int64{}
+	for k, v := range l.byKind {
+		o[k] = v
+	}
+	return o
+}
+
+// stagesPerCall: how many filter stages a dispatched call passes under each registration (the legacy filter, when
+// registered, is the only one the framework consults)
+var stagesPerCall = map[string]int{"none": 0, "legacy": 1, "prepost": 4, "mw": 2, "all": 1}
+
+func registerFilters(kind string) {
+	observer := func(name string) tars.ServerFilter {
+		return func(ctx context.Context, d tars.Dispatch, f interface{}, req *requestf.RequestPacket, resp *requestf.ResponsePacket, withContext bool) error {
+			flog.note(name, req)
+			return nil
+		}
+	}
+	middleware := func(name string) tars.ServerFilterMiddleware {
+		return func(next tars.ServerFilter) tars.ServerFilter {
+			return func(ctx context.Context, d tars.Dispatch, f interface{}, req *requestf.RequestPacket, resp *requestf.ResponsePacket, withContext bool) error {
+				flog.note(name, req)
+				return next(ctx, d, f, req, resp, withContext)
+			}
+		}
+	}
+	if kind == "legacy" || kind == "all" {
+		tars.RegisterServerFilter(func(ctx context.Context, d tars.Dispatch, f interface{}, req *requestf.RequestPacket, resp *requestf.ResponsePacket, withContext bool) error {
+			flog.note("legacy", req)
+			return d(ctx, f, req, resp, withContext)
+		})
+	}
+	if kind == "prepost" || kind == "all" {
+		tars.RegisterPreServerFilter(observer("pre1"))
+		tars.RegisterPreServerFilter(observer("pre2"))
+		tars.RegisterPostServerFilter(observer("post1"))
+		tars.RegisterPostServerFilter(observer("post2"))
+	}
+	if kind == "mw" || kind == "all" {
+		tars.UseServerFilterMiddleware(middleware("mw1"), middleware("mw2"))
+	}
+}
+
 // ---------------------------------------------------------------- hooks (TCP transport only)
 
 var hookHandleConn, hookInvoked, hookWritten int64
@@ -165,7 +253,13 @@ type serverInfo struct {
 	htMs      int
 }
 
-func startServer(proto string, pool, ht int, dir string) (*serverInfo, error) {
+func startServer(proto string, pool, ht int, dir string, filters, servant string) (*serverInfo, error) {
+	if !filterKinds[filters] {
+		return nil, fmt.Errorf("unknown -filters %q", filters)
+	}
+	if servant != "ctx" && servant != "plain" {
+		return nil, fmt.Errorf("unknown -servant %q", servant)
+	}
 	port, err := freePort(proto)
 	if err != nil {
 		return nil, err
@@ -210,8 +304,13 @@ func startServer(proto string, pool, ht int, dir string) (*serverInfo, error) {
 		return nil, fmt.Errorf("configuration not taken: maxroutine %d (want %d), handletimeout %v (want %d ms)", cfg.MaxInvoke, pool, cfg.HandleTimeout, ht)
 	}
 	rec.htMs = ht
+	registerFilters(filters)
 	app := new(Srv.Svc)
-	app.AddServantWithContext(imp{}, objName)
+	if servant == "plain" {
+		app.AddServant(impPlain{}, objName)
+	} else {
+		app.AddServantWithContext(imp{}, objName)
+	}
 	go tars.Run()
 	return info, nil
 }
